@@ -396,6 +396,9 @@ class RandomGeneratorProvider(GeneratorProvider):
             # Just take everything when it's Any.
             return self._get_all_generators(typ)
 
+        if typ.accept(is_primitive_type):
+            return OrderedSet()
+
         results: OrderedSet[GenericAccessibleObject] = OrderedSet()
         for gen_type, generators in self.get_all().items():
             if self._type_system.is_maybe_subtype(gen_type, typ):
